@@ -107,6 +107,9 @@ def handle : List String → String
   | "httphdr" :: rest => handleHdr rest
   | "httprwm" :: rest => handleRwm rest
   | "httphost" :: rest => handleHost rest
+  | "httpchain" :: rest => handleChain rest
+  | "httptpl" :: rest => handleTpl rest
+  | "cfenv" :: rest => handleCfEnv rest
   | ["zoo", _, _, _] => "zoo"      -- oracle-only stream (real provisioned server); nothing to model
   | _ => "bad-op"
 
